@@ -522,6 +522,27 @@ func fieldEdgeCalls(env *Env, rng *rand.Rand) {
 		v[n-1].SetZero()
 	}
 	mon.Try(func() { fr.BatchInvert(v) })
+	// arguments outside what the documentation promises anything for (result unjudged, a panic is contained): negative and
+	// oversized exponents, division by zero, inverse and square root of zero / a non-residue, empty and over-long byte strings
+	{
+		var x, y, z fr.Element
+		x = v[n/2]
+		e := new(big.Int).Neg(randBig(rng, ref.R))
+		if rng.Intn(2) == 0 {
+			e.Lsh(e, uint(rng.Intn(300)))
+		}
+		mon.Try(func() { z.Exp(x, e) })
+		mon.Try(func() { z.Exp(x, new(big.Int).Lsh(bigOne, 300)) })
+		mon.Try(func() { z.Div(&x, &y) })
+		mon.Try(func() { z.Inverse(&y) })
+		mon.Try(func() { z.Sqrt(&y) })
+		mon.Try(func() { z.SetBytes(nil) })
+		mon.Try(func() { z.SetBytes(make([]byte, 100)) })
+		var a, b fp.Element
+		a.SetUint64(uint64(rng.Int63()))
+		mon.Try(func() { b.Exp(a, e) })
+		mon.Try(func() { b.Inverse(&fp.Element{}) })
+	}
 	if env != nil && rng.Intn(2) == 0 {
 		var z fr.Element
 		z.SetUint64(uint64(rng.Intn(256)))
